@@ -204,6 +204,8 @@ class Shim:
         return np.full(shape, fill_value, dtype=_nd(dtype), **kw)
 
     def array(self, obj, dtype=None, **kw):
+        if is_sym(obj):
+            return obj
         if dtype in _FLOATS + (object,) and _has_sym(obj):
             if isinstance(obj, np.ndarray):
                 return obj.copy().view(OArr)
@@ -213,6 +215,8 @@ class Shim:
         return np.array(obj, dtype=_nd(dtype), **kw)
 
     def asarray(self, obj, dtype=None, **kw):
+        if is_sym(obj):
+            return obj          # a symbolic scalar stands for the 0-d array
         if dtype in _FLOATS + (object,):
             if isinstance(obj, OArr):
                 return obj
